@@ -285,6 +285,11 @@ class _FragGen:
         if o == "sub":
             neg = ["n", "Product", [["t", [["i", -1] if k == "int" else r.choice(
                 [["i", -1], ["f", "-1.0"]])] + [e(d + 1) for _ in range(r.randint(1, 2))]]]]
+            if k == "mixed" and r.random() < 0.2:
+                # both kinds of minus one in one product, in either order
+                fs = [["f", "-1.0"], ["i", -1], e(d + 1)]
+                r.shuffle(fs)
+                neg = ["n", "Product", [["t", fs]]]
             items = [e(d + 1), neg]
             if r.random() < 0.3:
                 items.append(e(d + 1))
@@ -307,8 +312,10 @@ class _FragGen:
             # an integer divisor under a numerator that is floating only by promotion
             how = r.random()
             if how < 0.5:
-                num = ["n", "Sum", [["t", [e(d + 1), ["n", "Product", [["t", [["f", "-1.0"],
-                                                                                 e(d + 1)]]]]]]]]
+                fs = [["f", "-1.0"], e(d + 1)]
+                if r.random() < 0.3:
+                    fs.append(["i", -1])          # ... and an integer minus one behind it
+                num = ["n", "Sum", [["t", [e(d + 1), ["n", "Product", [["t", fs]]]]]]]
             elif how < 0.65:
                 # indicators: floating only through the literals 1.0 / 0.0 in their branches
                 num = self.indicator(d) if r.random() < 0.5 else \
